@@ -2048,11 +2048,18 @@ def truncate_json_overflow(data):
     """
     if isinstance(data, collections.abc.Mapping):
         return {k: truncate_json_overflow(v) for k, v in data.items()}
+    elif isinstance(data, np.ndarray) and data.ndim == 0:
+        # A 0-d array is Iterable by type but cannot be iterated; treat it as the scalar it holds
+        return truncate_json_overflow(data.item())
     elif isinstance(data, collections.abc.Iterable) and not isinstance(data, str):
         # Handle lists, tuples, arrays, etc., but not strings
         return [truncate_json_overflow(item) for item in data]
-    elif isinstance(data, (int, float)) and not (data % 1) and not (1 - 2**53 <= data <= 2**53 - 1):
+    elif (
+        isinstance(data, (int, float, np.integer, np.floating))
+        and not (data % 1)
+        and not (1 - 2**53 <= data <= 2**53 - 1)
+    ):
         return min(max(data, 1 - 2**53), 2**53 - 1)  # Truncate integers to fit in JSON (53 bits max)
-    elif isinstance(data, float) and (data < -1.7976e308 or data > 1.7976e308):
-        return min(max(data, -1.7976e308), 1.7976e308)  # (Approx.) truncate floats to fit in JSON to avoid inf
+    elif isinstance(data, (float, np.floating)) and (float(data) < -1.7976e308 or float(data) > 1.7976e308):
+        return min(max(float(data), -1.7976e308), 1.7976e308)  # (Approx.) truncate floats to fit in JSON to avoid inf
     return data
